@@ -225,6 +225,43 @@ def _extra_kwargs(ctx):
                                       {"plan": plan, "datum": repr(datum), "mode": mode_name(dt, sc), "exception": repr(out.exc)[:400]})
 
 
+def _collected_extras_of_any_key_type(ctx):
+    """Collecting policies (extra_in='field', a saturator, ExtraSkip / ExtraForbid for comparison) with SEVERAL unknown keys that are
+    hashable but not comparable with each other (5 / 'x' / None / (1, 2)): the set of unknown keys needs no order (seeded change:
+    sorted(set(data) - known_keys))."""
+    import typing  # noqa: PLC0415
+    from dataclasses import make_dataclass  # noqa: PLC0415
+
+    from adaptix import ExtraForbid, ExtraSkip, Retort, name_mapping  # noqa: PLC0415
+
+    from ..adx import MODES  # noqa: PLC0415
+
+    M = make_dataclass("MX", [("a", int), ("rest", typing.Dict[typing.Any, typing.Any])])
+    Inner = make_dataclass("InnerX", [("v", int), ("rest", typing.Dict[typing.Any, typing.Any])])
+    Outer = make_dataclass("OuterX", [("inner", Inner), ("rest", typing.Dict[typing.Any, typing.Any])])
+    N = make_dataclass("NX", [("a", int)])
+    sink = {}
+    unknowns = [{5: "five", "x": 2}, {None: 1, "x": 2}, {(1, 2): 3, 7: 4, "s": 5}, {1.5: 1, b"k": 2}, {"only": 1}, {5: 1}, {}]
+    plans = [("extra_in=field", M, [name_mapping(M, extra_in="rest")], lambda u: {"a": 1, **u}),
+             ("extra_in=field/nested", Outer, [name_mapping(Inner, extra_in="rest"), name_mapping(Outer, extra_in="rest")], lambda u: {"inner": {"v": 1, **u}, **u}),
+             ("extra_in=saturator", N, [name_mapping(N, extra_in=lambda obj, extra: sink.update(extra))], lambda u: {"a": 1, **u}),
+             ("ExtraSkip", N, [name_mapping(N, extra_in=ExtraSkip())], lambda u: {"a": 1, **u}), ("ExtraForbid", N, [name_mapping(N, extra_in=ExtraForbid())], lambda u: {"a": 1, **u})]
+    for plan, cls, recipe, build in plans:
+        for dt, sc in MODES:
+            r = Retort(recipe=recipe, debug_trail=dt, strict_coercion=sc)
+            for u in unknowns:
+                datum = build(u)
+                out = attempt(r.load, datum, cls)
+                ctx.evaluated(("collected-extras", plan, repr(u), dt.name, sc), nontrivial=True)
+                ctx.count("extra_collect_loads")
+                ctx.count(f"outcome_{out.kind}")
+                if out.kind in ("exc", "impure"):
+                    ctx.violation(escape_key(out.exc), f"{plan} <- {datum!r} [{mode_name(dt, sc)}]: escaped {type(out.exc).__name__}: {str(out.exc)[:160]}",
+                                  {"plan": plan, "datum": repr(datum), "mode": mode_name(dt, sc), "exception": repr(out.exc)[:400]})
+                elif out.kind == "ok" and plan == "extra_in=field" and out.value.rest != u:
+                    ctx.violation("collected-extras-differ", f"{plan} <- {datum!r}: rest = {out.value.rest!r}, the unknown keys are {u!r}", {"plan": plan})
+
+
 def non_load(e):
     from ..adx import non_load_leaves  # noqa: PLC0415
 
@@ -261,6 +298,7 @@ I = spec.IntT
 DIRECTED = {
     "configured-builtin-providers": _configured_providers,
     "extra-kwargs-undeliverable-keys": _extra_kwargs,
+    "collected-extras-of-any-key-type": _collected_extras_of_any_key_type,
     "scalar-table-x-pool": _full_pool(spec._SCALARS),
     "containers-x-pool": _full_pool([
         spec.IterT("List", I()), spec.IterT("Set", spec.AnyT()), spec.IterT("FrozenSet", spec.AnyT()), spec.IterT("Deque", I()),
